@@ -212,6 +212,29 @@ func (a *IntervalAnalyzer) base(v ssa.Value, ctx *ssa.BasicBlock, depth int) Int
 			return acc
 		}
 		return typeRange(x.Type())
+	case *ssa.Call:
+		// known library ranges and one-line same-package helpers
+		name := CalleeName(&x.Call)
+		switch name {
+		case "math/bits.Len64", "math/bits.Len", "math/bits.LeadingZeros64", "math/bits.TrailingZeros64", "math/bits.OnesCount64":
+			return Interval{0, 64, true}
+		case "math/bits.Len32", "math/bits.LeadingZeros32", "math/bits.OnesCount32":
+			return Interval{0, 32, true}
+		case "math/bits.Len16":
+			return Interval{0, 16, true}
+		case "math/bits.Len8":
+			return Interval{0, 8, true}
+		}
+		if callee := x.Call.StaticCallee(); callee != nil && len(callee.Blocks) == 1 && depth < 20 && a.fn != nil && callee.Pkg == a.fn.Pkg {
+			for _, in := range callee.Blocks[0].Instrs {
+				if r, isRet := in.(*ssa.Return); isRet && len(r.Results) == 1 {
+					// the helper's result for arguments anywhere in their types' ranges
+					sub := NewIntervalAnalyzer(callee)
+					return sub.evalAt(r.Results[0], callee.Blocks[0], depth+4)
+				}
+			}
+		}
+		return typeRange(v.Type())
 	case *ssa.BinOp:
 		l := a.evalAt(x.X, ctx, depth+1)
 		r := a.evalAt(x.Y, ctx, depth+1)
